@@ -179,7 +179,7 @@ func (e *Exec) checkInvs(st *State, li *loopInfo, phase string, ctx *Ctx) {
 
 func (e *Exec) assumeInvs(st *State, li *loopInfo, ctx *Ctx) {
 	for _, inv := range li.spec.Invariants {
-		st.pc = append(st.pc, e.clause(inv.X, st, nil, li.pos+1, e.info(ctx), clauseInv))
+		st.assumeTagged(e.clause(inv.X, st, nil, li.pos+1, e.info(ctx), clauseInv), onlyOwnTags(inv.Tags))
 	}
 }
 
